@@ -17,6 +17,7 @@ def corpus():
         "result.stress 800",            # C18k: the progress function (Progress, HasDroppedIterations) against the run loop's writers: nobody waits forever
         "raterun.stop inflight 5 40 10", "raterun.stop due 5 40 10", "raterun.stop idle 5 40 10",
             "raterun.stop cancel 5 40 10", "raterun.switch 10 60 30 0", "raterun.switch 10 60 30 1",
+            "raterun.order 1 40 300 120 100 15 650", "raterun.order 1 30 150 10 150 70 500",     # C18n: start delays that are not increasing - the list's order is the order
             "raterun.count 10 120", "raterun.newstart 350 100 400", "raterun.newstart 150 50 300",
             # the runner's user: an interrupted run must still wait for a progress tick that is being reported
             "run prop=C18 mode=constant rate=2/100ms dur=2500 conc=2 body=5 cancel=1100 stallprogress=500",
